@@ -6,7 +6,8 @@ MODULE = "NadaVerif.Props.C05"
 TRANSLATORS = None
 THEOREMS = [f"NadaVerif.C05.{n}" for n in (
     "toMir_complete", "innerType_complete", "sideType_complete", "asInstance_complete", "memberTypes_complete",
-    "fieldTypes_complete", "scalarTable_eq_model", "output_type_is_op_type")] + \
+    "fieldTypes_complete", "scalarTable_eq_model", "output_type_is_op_type", "trace_edges_consistent",
+    "compile_edges_consistent", "rewrap_breaks_edges")] + \
     ["NadaVerif.C12.zip_mir_type", "NadaVerif.C12.unzip_mir_type", "NadaVerif.C12.map_type", "NadaVerif.C12.arrayNew_type"]
 
 
@@ -30,7 +31,7 @@ def project(mir):
 
 
 def classify(kind, rec, mir):
-    if gc.rewraps(rec["events"]):
+    if gc.rewraps(rec["events"], rec.get("real")):
         return "NoRewrap"
     if kind == "incomplete-type" and gc.unsized_array(rec["events"]):
         return "SizedArrays"
